@@ -11,10 +11,14 @@ impl GenerationPass for LivenessPass {
     #[allow(clippy::too_many_lines)]
     fn run(cfg: &mut crate::cfg::Cfg) -> Result<(), Box<CfgError>> {
         let mut changed = true;
+        #[cfg(feature = "rva_verif")]
+        crate::verif::pass_begin("liveness", cfg.nodes().len());
         #[allow(clippy::mutable_key_type)]
         let mut visited = HashSet::new();
         while changed {
             changed = false;
+            #[cfg(feature = "rva_verif")]
+            crate::verif::sweep();
             for node in cfg.iter().rev() {
                 // live_out[n] = U live_in[s] for all s in next[n]
                 let live_out = node
